@@ -181,6 +181,7 @@ func Fill(p *core.Prog, r *core.Report, anchors []Anchor) {
 			n := 0
 			if anchor {
 				noShortcut(p, r, info, fd, fn)
+				appendFill(p, r, info, fd, fn, mirror[pkg+"."+name])
 			}
 			ast.Inspect(fd.Body, func(m ast.Node) bool {
 				as, ok := m.(*ast.AssignStmt)
@@ -504,4 +505,124 @@ func noShortcut(p *core.Prog, r *core.Report, info *types.Info, fd *ast.FuncDecl
 			r.Bad("NO-SHORTCUT", key, p.Pos(ret.Pos()), "this return hands back `"+types.ExprString(ret.Results[0])+"` without going through the slice the function fills: for the inputs that take this path the parts are not transformed")
 		}
 	}
+}
+
+// appendFill recognises the other common way of building the result: an empty
+// slice that receives exactly one append per element of the ranged source.
+func appendFill(p *core.Prog, r *core.Report, info *types.Info, fd *ast.FuncDecl, fn string, mustMirror bool) {
+	asg := core.Assigns(info, fd.Body)
+	n := 0
+	ast.Inspect(fd.Body, func(m ast.Node) bool {
+		rs, ok := m.(*ast.RangeStmt)
+		if !ok {
+			return true
+		}
+		// x = append(x, E) statements in the body, by target
+		var target types.Object
+		isApp := func(st ast.Stmt) bool {
+			as, ok := st.(*ast.AssignStmt)
+			if !ok || len(as.Lhs) != 1 || len(as.Rhs) != 1 {
+				return false
+			}
+			c, ok := ast.Unparen(as.Rhs[0]).(*ast.CallExpr)
+			if !ok || !core.IsBuiltin(info, c, "append") || len(c.Args) != 2 || c.Ellipsis.IsValid() {
+				return false
+			}
+			o := core.ObjOf(info, as.Lhs[0])
+			if o == nil || o != core.ObjOf(info, c.Args[0]) {
+				return false
+			}
+			if target == nil {
+				target = o
+			}
+			return o == target
+		}
+		var count func(list []ast.Stmt) (int, int)
+		count = func(list []ast.Stmt) (int, int) {
+			lo, hi := 0, 0
+			for _, st := range list {
+				if isApp(st) {
+					lo++
+					hi++
+					continue
+				}
+				switch x := st.(type) {
+				case *ast.IfStmt:
+					a, b := count(x.Body.List)
+					c, d := 0, 0
+					if x.Else != nil {
+						if blk, ok := x.Else.(*ast.BlockStmt); ok {
+							c, d = count(blk.List)
+						} else {
+							c, d = count([]ast.Stmt{x.Else})
+						}
+					}
+					lo += min(a, c)
+					hi += max(b, d)
+				case *ast.BlockStmt:
+					a, b := count(x.List)
+					lo += a
+					hi += b
+				case *ast.ForStmt, *ast.RangeStmt, *ast.SwitchStmt, *ast.TypeSwitchStmt:
+					ast.Inspect(x, func(k ast.Node) bool {
+						if ss, ok := k.(ast.Stmt); ok && isApp(ss) {
+							hi += 2
+						}
+						return true
+					})
+				}
+			}
+			return lo, hi
+		}
+		lo, hi := count(rs.Body.List)
+		if target == nil || hi == 0 {
+			return true
+		}
+		// the target starts empty: nil declaration, empty literal or make(_, 0, ...)
+		empty := false
+		for _, a := range asg[target] {
+			if a.Pos >= rs.Pos() {
+				continue
+			}
+			switch {
+			case a.RHS == nil && a.Call == nil:
+				empty = true // var x []T
+			case a.RHS != nil:
+				switch x := ast.Unparen(a.RHS).(type) {
+				case *ast.CompositeLit:
+					empty = len(x.Elts) == 0
+				case *ast.CallExpr:
+					if core.IsBuiltin(info, x, "make") && len(x.Args) >= 2 {
+						if z, ok := core.ConstInt(info, x.Args[1]); ok && z == 0 {
+							empty = true
+						}
+					}
+					if core.IsConversion(info, x) && len(x.Args) == 1 && core.IsNil(info, x.Args[0]) {
+						empty = true
+					}
+				}
+			}
+		}
+		if !empty {
+			return true // not a from-scratch builder (e.g. an accumulator across calls): other rules own it
+		}
+		if _, isSlice := target.Type().Underlying().(*types.Slice); !isSlice {
+			return true
+		}
+		// only builders whose element type is a location / region / sequence are FILL sites
+		n++
+		key := fmt.Sprintf("%s|append#%d(%s)", fn, n, types.TypeString(target.Type(), func(*types.Package) string { return "" }))
+		switch {
+		case leaves(rs.Body):
+			r.Bad("FILL", key, p.Pos(rs.Pos()), "an iteration can be left (continue/break/return) before the element is appended: that part is lost")
+		case lo != 1 || hi != 1:
+			r.Bad("FILL", key, p.Pos(rs.Pos()), fmt.Sprintf("an element is appended %d..%d times per iteration instead of exactly once", lo, hi))
+		case mustMirror:
+			r.Bad("FILL", key, p.Pos(rs.Pos()), "the elements are appended in their original order although this function must mirror it")
+		default:
+			r.Fn(fn)
+			r.Ok("FILL", key, p.Pos(rs.Pos()), "one append per element of the ranged source on every path")
+		}
+		return true
+	})
 }
